@@ -1,20 +1,16 @@
 SPECIFICATION Spec
 CONSTANTS
   N = 4
-  BaseEps <- Eps14
+  BaseEps <- One
   MatEps <- Eps124
   PVals <- P012
-  MaxHist = 3
+  MaxHist = 2
   Backup = "any"
-  Scenes <- Single
+  Scenes <- Twin
   DispWrite = "every"
-  MatTable = "own"
+  MatTable = "first"
 INVARIANT TypeOK
-INVARIANT DeviceCells
-INVARIANT Range
-INVARIANT DiscreteExact
 INVARIANT OutsideUnchanged
 INVARIANT HistoryIndependent
-INVARIANT DispCells
-INVARIANT DispOutsideUnchanged
+INVARIANT DeviceCells
 CHECK_DEADLOCK TRUE
